@@ -301,14 +301,19 @@ def g_pur(rng, variant=0):
     return PurificationMPS.from_infiniteT([s] * 2, bc='infinite')
 
 
-@gen('uniform_mps')
-def g_umps(rng):
+@gen('uniform_mps', variants=2)
+def g_umps(rng, variant=0):
     from tenpy.networks.uniform_mps import UniformMPS
     from tenpy.networks.mps import MPS
     from tenpy.networks.site import SpinHalfSite
     s = SpinHalfSite(conserve='None', sort_charge=False)
-    psi = MPS.from_product_state([s] * 4, [0, 1, 0, 1], bc='infinite', unit_cell_width=4)
-    return UniformMPS.from_MPS(psi)
+    if variant == 0:        # from_MPS: diagonal gauge, singular values _S defined
+        psi = MPS.from_product_state([s] * 4, [0, 1, 0, 1], bc='infinite', unit_cell_width=4)
+        return UniformMPS.from_MPS(psi)
+    # plain constructor: diagonal_gauge False, no _S; unit_cell_width differs from len(sites) (two sites per lattice unit cell)
+    psi = MPS.from_product_state([s] * 4, [0, 1, 0, 1], bc='infinite', unit_cell_width=2)
+    u = UniformMPS.from_MPS(psi)
+    return UniformMPS(u.sites, u._AL, u._AR, u._AC, u._C, norm=1., unit_cell_width=2)
 
 
 @gen('momentum_mps')
@@ -379,8 +384,12 @@ def mk_lattice(name, variant=0):
             return L.IrregularLattice(reg, remove=[[0, 0, 0], [2, 1, 0]])
         return L.IrregularLattice(reg, add=([[1, 0, 1]], [None]), add_unit_cell=[f], add_positions=[[0.5, 0.5]])
     if name == 'HelicalLattice':
-        reg = L.Square(2, 3, s, bc_MPS='infinite', bc=['periodic', -1])
-        return L.HelicalLattice(reg, 1 + variant % 2)
+        if variant % 2 == 0:
+            reg = L.Square(2, 3, s, bc_MPS='infinite', bc=['periodic', -1])
+            return L.HelicalLattice(reg, 1)
+        # two sites per lattice unit cell: N_sites (4) differs from the number of unit cells in the MPS unit cell (2)
+        reg = L.Honeycomb(2, 3, [s, f], order='Cstyle', bc_MPS='infinite', bc=['periodic', -1])
+        return L.HelicalLattice(reg, 2)
     if name == 'DualSquare':
         from tenpy.models.toric_code import DualSquare
         return DualSquare(2, 2, s, bc_MPS=bc_MPS, bc=[bc, 'periodic'])
